@@ -6,7 +6,8 @@ package remember
 // code). Comment-only: no code; visible only with the build tag "verif".
 //
 //@ func GenerateToken
-//@   property C07
+//@   property C07 C17
+//@   ensures[C17] no_secret_leak: secrets_clean
 //@   -- the token is base64url(pid ";" nonce) with a 32 byte nonce, the stored value its sha512
 //@   ensures token_is_spec: result.2 == nil ==>
 //@       emits Rand.Read(?n) -> ?re :: re == nil && len(n) == 32 &&
@@ -14,7 +15,8 @@ package remember
 //@   ensures no_panic: !panics
 //@
 //@ func Authenticate
-//@   property C07 C01 C18
+//@   property C07 C01 C18 C17
+//@   ensures[C17] no_secret_leak: secrets_clean
 //@   let rq = deref(req)
 //@   let raw = b64url_dec(cookie(rq, "rm"))
 //@   -- spec of the statement: the account a well-formed cookie (pid ";" 32-byte nonce)
@@ -38,7 +40,8 @@ package remember
 //@       (result != nil && !emits Sess.Put(_, _) && !emits Cook.Put(_, _))
 //@
 //@ func (*Remember).RememberAfterAuth
-//@   property C07 C18
+//@   property C07 C18 C17
+//@   ensures[C17] no_secret_leak: secrets_clean
 //@   -- a cookie is only issued when the submitted values ask for it, and it is the
 //@   -- token whose hash was stored for the current user
 //@   ensures[C07] only_when_asked: each Cook.Put(_, _) =>
